@@ -826,6 +826,13 @@ def snapshot(f):
             int(f.nvdim), f.unit, repr(f.mesh), id(f.mesh), id(f.array), id(f.valid))
 
 
+def mesh_close(a, b):
+    try:
+        return bool(a.allclose(b))
+    except Exception:  # noqa: BLE001  (different dims raise)
+        return False
+
+
 def pos_chain_leaf(e):
     while e[0] == "un" and e[1] == "pos":
         e = e[3]
@@ -897,7 +904,7 @@ def run_case(c):
             if not np.array_equal(r.valid, ref.valid if ref.valid is not None else np.ones(n, bool)):
                 rec["oracle"].append("validity-not-and-of-operands")
             used = sorted(set(ref.leaves))
-            if used and not all(r.mesh == leaves[i].mesh or leaves[i].mesh.allclose(r.mesh) for i in used):
+            if used and not all(r.mesh == leaves[i].mesh or mesh_close(leaves[i].mesh, r.mesh) for i in used):
                 rec["oracle"].append("mesh-not-common")
             if used and all(leaves[i].mesh == leaves[used[0]].mesh for i in used) and r.mesh != leaves[used[0]].mesh:
                 rec["oracle"].append("mesh-not-common")
